@@ -115,11 +115,22 @@ def reaches_call(repo: Repo, fi: FuncInfo, name: str, depth: int = 3, seen=None)
     return False
 
 
-def check_skeleton(ctx: Ctx, rule: str, fi: FuncInfo, specs: Sequence[str], what: str, inline_cls: Optional[str] = None, required_calls: Sequence[str] = ()) -> bool:
+def strip_assuming(t):
+    """Drop assert-preconditions (('assuming', cond, rest) -> rest) everywhere in a term."""
+    if not isinstance(t, tuple):
+        return t
+    if t and t[0] == "assuming":
+        return strip_assuming(t[2])
+    return tuple(strip_assuming(x) for x in t)
+
+
+def check_skeleton(ctx: Ctx, rule: str, fi: FuncInfo, specs: Sequence[str], what: str, inline_cls: Optional[str] = None, required_calls: Sequence[str] = (), ignore_asserts: bool = False) -> bool:
     """Compare; record ok / violation; raise AnalysisError when undecidable.
     ``required_calls``: functions the property says must be consulted; if one is not even reachable
     from ``fi`` the implementation cannot be the required computation (violation, not unknown)."""
     impl = func_term(fi)
+    if ignore_asserts:
+        impl = strip_assuming(impl)
     voc = vocabulary(impl)
 
     def reachable_from_term(name: str) -> bool:
@@ -137,6 +148,8 @@ def check_skeleton(ctx: Ctx, rule: str, fi: FuncInfo, specs: Sequence[str], what
         ctx.violation(rule, fi, fi.node, f"{what}: the implementation never consults {', '.join(missing)}  (it computes {show(impl)[:160]})")
         return False
     spec_terms = [spec_from_src(s) for s in specs]
+    if ignore_asserts:
+        spec_terms = [strip_assuming(s) for s in spec_terms]
     if impl in spec_terms:
         ctx.ok(rule, fi.where, f"{what}: {show(impl)}", fi.node, fi)
         return True
